@@ -132,6 +132,34 @@ def run_case(case, seed):
                 resid = delta - mean * (np.asarray(lay.bias[t]) if (t in lay.bias and bias_mode in ("auto", "mean", True)) else 0.0)
                 if np.max(np.abs(resid)) > 1e-4 * (1 + np.max(np.abs(g0[t]))):
                     bad(f"C11/bias/{bias_mode}/additive-on-nonscalar", f"block {t}: bias contribution is not a per-channel multiple of the spatial mean")
+    # ---- every weight block feeding the last reachable target exactly zero (a pruned layer): the block must still be
+    #      emitted (zeros plus the bias rule); and an integer-typed input must give what its float copy gives
+    if not v and reachable:
+        lay = mlh.set_convcontract_params(layer, rng, integer=True)
+        tz = reachable[-1]
+        neww = {s: {t: (jnp.zeros_like(w) if t == tz else w) for t, w in d.items()} for s, d in lay.weights.items()}
+        layz = eqx.tree_at(lambda l: l.weights, lay, neww)
+        xb = mlh.make_input(in_sig, D, sp, rng, integer=True)
+        try:
+            yz = layz(mlh.to_mi(xb, D, flags, order=in_types))
+            evals += 1
+            if set(yz.keys()) != set(reachable):
+                bad("C11/signature/dropped/zero-weights", f"all weights into {tz} are zero: output types {list(yz.keys())}, expected {reachable}")
+            else:
+                fullz, _ = mlh.ref_convcontract(layz, xb, in_types, D, flags, bank_np, with_bias=True)
+                for t in reachable:
+                    if np.asarray(yz[t]).size and mlh.relerr(np.asarray(yz[t]), fullz[t]) > 1e-5:
+                        bad("C11/value/zero-weights", f"block {t} wrong when the weights into {tz} are zero")
+                        break
+            yi = lay(mlh.to_mi({kp: b.astype(np.int32) for kp, b in xb.items()}, D, flags, order=in_types))
+            yf = lay(mlh.to_mi(xb, D, flags, order=in_types))
+            evals += 2
+            for t in reachable:
+                if t not in yi or mlh.relerr(np.asarray(yi[t]).astype(np.float64), np.asarray(yf[t])) > 1e-5:
+                    bad("C11/dtype/int-input", f"block {t}: an integer-typed input gives a different result than the same values as float32")
+                    break
+        except Exception as e:
+            bad(f"C11/call/{type(e).__name__}/variant", f"layer raised {type(e).__name__} on a zero-weight / integer-input variant: {str(e)[:150]}")
     nontrivial = any(np.any(b != 0) for b in (got.values() if evals else []))
     return {"violations": v, "nt": bool(nontrivial), "evals": evals, "outcome": f"d{D}/{case['bank']}/bias={case['bias']}/reach={len(reachable)}/{len(out_types)}"}
 
